@@ -4,7 +4,8 @@
 //! oracle replays the effective addresses of the valid connections into a second real limiter.
 
 use super::common::*;
-use crate::client::ClientSpec;
+use crate::client::{ClientSpec, Cut};
+use crate::pipe::{Gate, PipeState};
 use crate::conn::new_runtime;
 use crate::net::{NetCfg, NetClient, NetOutcome, NetScenario, run_net};
 use crate::rng::Rng;
@@ -83,6 +84,7 @@ fn generate(rng: &mut Rng) -> C15Sc {
     let nlb = rng.range(1, 3) as usize;
     let sources = ["198.51.100.1", "198.51.100.2", "2001:db8:1::5", "10.0.0.1", "203.0.113.77"];
     let nsrc = rng.range(1, sources.len() as u64) as usize;
+    let slow_headers = proxy.is_some() && rng.chance(1, 3);
     let nmax = if rng.chance(1, 4) { 40 } else { 12 };
     let n = rng.range(1, nmax);
     let mut t = 0u64;
@@ -163,6 +165,17 @@ fn generate(rng: &mut Rng) -> C15Sc {
         spec.close_on_end_ns = Some(0);
         // header and first frames may reach the server in one read
         spec.coalesce = rng.chance(1, 2);
+        // a header may also trickle in: the connection is then admitted (and charged) when the header is
+        // complete, not when it was accepted. Delays are chosen so that no two admissions share an instant.
+        if slow_headers
+            && kind != "truncated_then_eof"
+            && let Some(p) = &spec.preamble
+            && p.len() >= 2
+            && rng.chance(1, 3)
+        {
+            let d = *rng.pick(&[ms(50), secs(1), secs(4)]) + ms(1 + i % 39);
+            spec.cuts.push(Cut { at: rng.range(1, p.len() as u64 - 1), gate: Gate::Delay { ns: d }, spurious: 0 });
+        }
         let mut c = NetClient { connect_at_ns: t, peer: peer.to_string(), spec, wplan: vec![] };
         if kind == "truncated_then_eof" {
             // the client closes right after the partial header: script mode with a single close
@@ -219,19 +232,30 @@ pub fn check(sc: &C15Sc, out: &NetOutcome, rep: &mut RunReport) {
         return;
     }
     // feed the shadow limiter with the effective IPs of the valid connections, in accept order
-    let mut feed = vec![];
-    let mut fed_idx = vec![];
+    let mut feed: Vec<(u64, usize, IpAddr)> = vec![];
     for (i, (c, m)) in out.clients.iter().zip(sc.meta.iter()).enumerate() {
         if m.valid {
             let Some(t) = c.accepted_ns else {
                 rep.violate("every_connection_is_accepted", format!("connection {i} ({}) was never taken from the accept queue", m.kind));
                 return;
             };
+            // admitted when its header is complete (at once unless the header trickles in)
+            let plen = sc.net.clients[i].spec.preamble.as_ref().map(|p| p.len() as u64).unwrap_or(0);
+            let t_hdr = if plen > 0 { PipeState::avail_at(&c.avail, plen).unwrap_or(t) } else { t };
             let ip: SocketAddr = m.effective.parse().unwrap();
-            feed.push((t, ip.ip()));
-            fed_idx.push(i);
+            feed.push((t.max(t_hdr), i, ip.ip()));
         }
     }
+    feed.sort();
+    // two admissions at the same instant, one of them through a delayed header: their order is not the
+    // scenario's to decide - no verdict
+    for w in feed.windows(2) {
+        if w[0].0 == w[1].0 && (!sc.net.clients[w[0].1].spec.cuts.is_empty() || !sc.net.clients[w[1].1].spec.cuts.is_empty()) {
+            return;
+        }
+    }
+    let fed_idx: Vec<usize> = feed.iter().map(|f| f.1).collect();
+    let feed: Vec<(u64, IpAddr)> = feed.into_iter().map(|f| (f.0, f.2)).collect();
     let decisions = shadow(sc.net.seed, sc.net.cfg.limiter, &feed);
     let mut admitted = vec![false; out.clients.len()];
     for (k, i) in fed_idx.iter().enumerate() {
@@ -348,7 +372,12 @@ impl Check for C15 {
                     want_valid == m.valid && (k == "absent") == c.spec.preamble.is_none()
                 }
             };
-            if !consistent || !c.spec.mutations.is_empty() || !c.spec.cuts.is_empty() || !c.wplan.is_empty() || !matches!(c.spec.intent, 1 | 2) {
+            if !consistent || !c.spec.mutations.is_empty() || !c.wplan.is_empty() || !matches!(c.spec.intent, 1 | 2) {
+                return RunReport::default();
+            }
+            // cuts only inside a PROXY header, with a delay that keeps admissions at distinct instants
+            let plen = c.spec.preamble.as_ref().map(|p| p.len() as u64).unwrap_or(0);
+            if c.spec.cuts.len() > 1 || c.spec.cuts.iter().any(|k| k.at == 0 || k.at >= plen || !matches!(k.gate, Gate::Delay { ns } if ns % ms(50) >= ms(1) && ns % ms(50) <= ms(39))) {
                 return RunReport::default();
             }
             if c.spec.script.is_some() != (m.kind == "truncated_then_eof") {
@@ -374,6 +403,9 @@ impl Check for C15 {
         };
         rep.merge_counts(&out.faults, &out.probes);
         let mut h = crate::rng::Fnv(rep.trace_hash);
+        if sc.net.clients.iter().any(|c| !c.spec.cuts.is_empty()) {
+            *rep.faults.entry("proxy_header_trickles_in".into()).or_insert(0) += 1;
+        }
         for m in &sc.meta {
             h.write_str(&m.kind);
             *rep.faults.entry(format!("header_{}", m.kind)).or_insert(0) += 1;
